@@ -340,6 +340,7 @@ func TestC07(t *testing.T) {
 		"[ticks(before call), ticks(after call)] by the harness clock and non-decreasing per link. distinct = distinct histories")
 	rep.RuleAdd("Also: links used in both directions on which frames dated ahead of the local clock (1 s, 1 h, 2^48-1) were accepted before writing (frame.ReadWriter and node channels); writes packed around second boundaries on many OS threads; a second child process in another time zone.")
 	rep.RuleAdd("Rounds 12-15: three authors per link, key objects replaced on live readers, delivered frames re-stamped by the application, 31 s of silence, correctly signed frames refused for their checksum inside the window, read timeouts between the frames of a history.")
+	rep.RuleAdd("Rounds 16-17: key rotation on live readers half way through a history; future-dated frames forwarded through a writer that then originates; the whole test also as a GOARCH=386 program.")
 	rep.Assume("wall clock is not stepped backwards during the run (not injected: the two clauses of the statement would contradict each other)")
 	seed := vh.Seed()
 	if os.Getenv("VERIF_SHARD") == "1" {
